@@ -49,12 +49,11 @@ Section Flatten.
 Variable pfam : N -> bool.
 Variable mm : qkey -> option memo.
 Variable rank : qkey -> nat.
-(* the memo graph is acyclic, and a recorded function edge points to a function that has a memo *)
+(* the memo graph is acyclic (a recorded function edge may point to a function WITHOUT memo: the
+   dependency is then kept as an edge, fix of the memo-less-dependency stale value) *)
 Hypothesis edge_rank : forall g m c, mm g = Some m -> In (EQ c) (m_edges m) -> (rank c < rank g)%nat.
-Hypothesis edges_have_memos : forall g m c, mm g = Some m -> In (EQ c) (m_edges m) -> mm c <> None.
 
 Definition erank (e : edge) : nat := match e with EIn _ => O | EQ g => S (rank g) end.
-Definition has_memo (e : edge) : Prop := match e with EIn _ => True | EQ g => mm g <> None end.
 
 Definition covered (out vis : list edge) (e : edge) : Prop := In e out \/ In e vis.
 Definition vis_ok (vis : list edge) : Prop := forall e, In e vis -> exists g m, e = EQ g /\ mm g = Some m.
@@ -77,21 +76,21 @@ Lemma collect_S fuel e acc :
   match e with
   | EIn _ => (add_edge (fst acc) e, snd acc)
   | EQ g => match mm g with
-            | None => acc
+            | None => (add_edge (fst acc) e, snd acc)
             | Some m => fold_left (cstep fuel) (m_edges m) (fst acc, e :: snd acc)
             end
   end.
 Proof. reflexivity. Qed.
 
 Definition collect_ok (fuel : nat) : Prop :=
-  forall e out vis X, (erank e < fuel)%nat -> has_memo e -> vis_ok vis -> closedX X out vis ->
+  forall e out vis X, (erank e < fuel)%nat -> vis_ok vis -> closedX X out vis ->
     let r := collect mm fuel e (out, vis) in
     incl out (fst r) /\ incl vis (snd r) /\ vis_ok (snd r) /\ closedX X (fst r) (snd r) /\
     covered (fst r) (snd r) e.
 
 Lemma fold_cstep fuel (IH : collect_ok fuel) X :
   forall es out vis,
-    (forall e2, In e2 es -> (erank e2 < fuel)%nat /\ has_memo e2) ->
+    (forall e2, In e2 es -> (erank e2 < fuel)%nat) ->
     vis_ok vis -> closedX X out vis ->
     let r := fold_left (cstep fuel) es (out, vis) in
     incl out (fst r) /\ incl vis (snd r) /\ vis_ok (snd r) /\ closedX X (fst r) (snd r) /\
@@ -106,7 +105,7 @@ Proof.
       - cbn. repeat split; try apply incl_refl; try assumption. right. now apply mem_edge_In.
       - destruct (mem_edge e out) eqn:M2.
         + cbn. repeat split; try apply incl_refl; try assumption. left. now apply mem_edge_In.
-        + destruct (Hes e (or_introl eq_refl)) as (Hr & Hm). exact (IH e out vis X Hr Hm Hv Hc). }
+        + pose proof (Hes e (or_introl eq_refl)) as Hr. exact (IH e out vis X Hr Hv Hc). }
     destruct (cstep fuel (out, vis) e) as [out1 vis1] eqn:E1. cbn [fst snd] in Hstep.
     destruct Hstep as (I1 & I2 & V1 & C1 & Cov1).
     destruct (IHes out1 vis1) as (J1 & J2 & V2 & C2 & Cov2); [intros e2 He2; apply Hes; now right | exact V1 | exact C1 |].
@@ -120,16 +119,20 @@ Qed.
 
 Lemma collect_ok_all fuel : collect_ok fuel.
 Proof.
-  induction fuel as [|fuel IH]; intros e out vis X Hr Hm Hv Hc; [lia|].
-  rewrite collect_S. cbn [fst snd]. destruct e as [i|g].
-  - cbn [fst snd]. repeat split.
+  induction fuel as [|fuel IH]; intros e out vis X Hr Hv Hc; [lia|].
+  assert (Hadd : let a := (add_edge out e, vis) in
+                 incl out (fst a) /\ incl vis (snd a) /\ vis_ok (snd a) /\ closedX X (fst a) (snd a) /\
+                 covered (fst a) (snd a) e).
+  { cbn [fst snd]. repeat split.
     + intros x Hx. apply In_add_edge. now left.
     + apply incl_refl.
     + exact Hv.
     + intros g m Hg HX Hmg e2 He2. eapply covered_mono; [| apply incl_refl | exact (Hc g m Hg HX Hmg e2 He2)].
       intros x Hx. apply In_add_edge. now left.
-    + left. apply In_add_edge. now right.
-  - cbn in Hm. destruct (mm g) as [m|] eqn:Hg; [|congruence].
+    + left. apply In_add_edge. now right. }
+  rewrite collect_S. cbn [fst snd]. destruct e as [i|g].
+  - exact Hadd.
+  - destruct (mm g) as [m|] eqn:Hg; [|exact Hadd].
     assert (Hv' : vis_ok (EQ g :: vis)).
     { intros e [<-|He]; [exists g, m; now split | now apply Hv]. }
     assert (Hc' : closedX (EQ g :: X) out (EQ g :: vis)).
@@ -140,9 +143,8 @@ Proof.
       - intros HX'. apply HX. now right. }
     destruct (fold_cstep fuel IH (EQ g :: X) (m_edges m) out (EQ g :: vis)) as (I1 & I2 & V & C & Cov);
       [| exact Hv' | exact Hc' |].
-    { intros e2 He2. split.
-      - destruct e2 as [i|c]; cbn; [cbn in Hr; lia|]. pose proof (edge_rank g m c Hg He2). cbn in Hr. lia.
-      - destruct e2 as [i|c]; cbn; [exact I | exact (edges_have_memos g m c Hg He2)]. }
+    { intros e2 He2.
+      destruct e2 as [i|c]; cbn; [cbn in Hr; lia|]. pose proof (edge_rank g m c Hg He2). cbn in Hr. lia. }
     repeat split.
     + exact I1.
     + intros x Hx. apply I2. now right.
@@ -156,13 +158,13 @@ Qed.
 
 (* ---------------------------------------------------------------- the whole origin *)
 Theorem flatten_closed (fuel : nat) (edges : list edge) :
-  (forall e, In e edges -> (erank e < fuel)%nat /\ has_memo e) ->
+  (forall e, In e edges -> (erank e < fuel)%nat) ->
   let r := flatten_full pfam mm fuel edges in
   vis_ok (snd r) /\ closedX [] (fst r) (snd r) /\ (forall e, In e edges -> covered (fst r) (snd r) e).
 Proof.
   intros Hes. unfold flatten_full.
   assert (G : forall es out vis,
-             (forall e, In e es -> (erank e < fuel)%nat /\ has_memo e) ->
+             (forall e, In e es -> (erank e < fuel)%nat) ->
              vis_ok vis -> closedX [] out vis ->
              let r := fold_left (flatten_step pfam mm fuel) es (out, vis) in
              incl out (fst r) /\ incl vis (snd r) /\ vis_ok (snd r) /\ closedX [] (fst r) (snd r) /\
@@ -184,8 +186,8 @@ Proof.
           - left. apply In_add_edge. now right. }
         unfold flatten_step. cbn [fst snd]. destruct e as [i|q]; [exact Hadd|].
         destruct (pfam (fst q)); [exact Hadd|].
-        destruct (He (EQ q) (or_introl eq_refl)) as (Hr & Hm).
-        exact (collect_ok_all fuel (EQ q) out vis [] Hr Hm Hv Hc). }
+        pose proof (He (EQ q) (or_introl eq_refl)) as Hr.
+        exact (collect_ok_all fuel (EQ q) out vis [] Hr Hv Hc). }
       destruct (flatten_step pfam mm fuel (out, vis) e) as [out1 vis1] eqn:E1. cbn [fst snd] in Hstep.
       destruct Hstep as (I1 & I2 & V1 & C1 & Cov1).
       destruct (IHes out1 vis1) as (J1 & J2 & V2 & C2 & Cov2); [intros e2 He2; apply He; now right | exact V1 | exact C1 |].
@@ -210,7 +212,7 @@ Inductive ok_edge : edge -> Prop :=
              (forall e, In e (m_edges m) -> ok_edge e) -> ok_edge (EQ g).
 
 Theorem flatten_sound (fuel : nat) (edges : list edge) :
-  (forall e, In e edges -> (erank e < fuel)%nat /\ has_memo e) ->
+  (forall e, In e edges -> (erank e < fuel)%nat) ->
   lost_untracked pfam mm fuel edges = false ->
   (forall x, In x (flatten pfam mm fuel edges) -> ok_edge x) ->
   forall e, In e edges -> ok_edge e.
@@ -266,9 +268,8 @@ Proof.
   destruct (snap_memo_tracked fuel q m' Hs Hu) as (m & Hm & Hum & Hl & He & _).
   exists m. split; [exact Hm|]. split; [exact Hum|].
   apply (flatten_sound fuel (m_edges m)); [| exact Hl | now rewrite <- He].
-  intros e Hin. split.
-  - destruct e as [i|c]; cbn; [specialize (Hf q); lia | apply Hf].
-  - destruct e as [i|c]; cbn; [exact I | exact (edges_have_memos q m c Hm Hin)].
+  intros e Hin.
+  destruct e as [i|c]; cbn; [specialize (Hf q); lia | apply Hf].
 Qed.
 
 End Flatten.
@@ -286,15 +287,24 @@ Definition all_persistable (l : list edge) : Prop := forall e, In e l -> persist
 Lemma all_persistable_add l e : all_persistable l -> persistable e = true -> all_persistable (add_edge l e).
 Proof. intros A B x Hx. apply In_add_edge in Hx. destruct Hx as [Hx| ->]; [now apply A | exact B]. Qed.
 
-Lemma collect_out_persistable mm fuel : forall e out vis,
-  all_persistable out -> all_persistable (fst (collect mm fuel e (out, vis))).
+(* what a flattened origin consists of: edges that are serialised directly, and function
+   dependencies that had NO memo when the origin was flattened (nothing covers them) *)
+Definition kept (mm : qkey -> option memo) (e : edge) : Prop :=
+  persistable e = true \/ exists g, e = EQ g /\ mm g = None.
+Definition all_kept (mm : qkey -> option memo) (l : list edge) : Prop := forall e, In e l -> kept mm e.
+
+Lemma all_kept_add mm l e : all_kept mm l -> kept mm e -> all_kept mm (add_edge l e).
+Proof. intros A B x Hx. apply In_add_edge in Hx. destruct Hx as [Hx| ->]; [now apply A | exact B]. Qed.
+
+Lemma collect_out_kept mm fuel : forall e out vis,
+  all_kept mm out -> all_kept mm (fst (collect mm fuel e (out, vis))).
 Proof.
   induction fuel as [|fuel IH]; intros e out vis A; [exact A|].
   cbn [collect fst snd]. destruct e as [i|g].
-  - now apply all_persistable_add.
-  - destruct (mm g) as [m|]; [|exact A].
-    assert (G : forall es acc, all_persistable (fst acc) ->
-              all_persistable (fst (fold_left (fun acc e2 =>
+  - apply all_kept_add; [exact A | now left].
+  - destruct (mm g) as [m|] eqn:Hg; [|apply all_kept_add; [exact A | right; now exists g]].
+    assert (G : forall es acc, all_kept mm (fst acc) ->
+              all_kept mm (fst (fold_left (fun acc e2 =>
                  if mem_edge e2 (snd acc) then acc else if mem_edge e2 (fst acc) then acc
                  else collect mm fuel e2 acc) es acc))).
     { induction es as [|e2 es IHes]; intros acc Ha; [exact Ha|]. cbn [fold_left]. apply IHes.
@@ -303,17 +313,17 @@ Proof.
     now apply G.
 Qed.
 
-(* every edge of a flattened origin is serialised directly ... *)
-Theorem flatten_persistable mm fuel edges : all_persistable (flatten pfam mm fuel edges).
+(* every edge of a flattened origin is serialised directly, or had no memo ... *)
+Theorem flatten_kept mm fuel edges : all_kept mm (flatten pfam mm fuel edges).
 Proof.
   unfold flatten, flatten_full.
-  assert (G : forall es acc, all_persistable (fst acc) ->
-            all_persistable (fst (fold_left (flatten_step pfam mm fuel) es acc))).
+  assert (G : forall es acc, all_kept mm (fst acc) ->
+            all_kept mm (fst (fold_left (flatten_step pfam mm fuel) es acc))).
   { induction es as [|e es IHes]; intros acc Ha; [exact Ha|]. cbn [fold_left]. apply IHes.
     unfold flatten_step. destruct e as [i|q].
-    - now apply all_persistable_add.
-    - destruct (pfam (fst q)) eqn:P; [now apply all_persistable_add|].
-      destruct acc as [o v]. now apply collect_out_persistable. }
+    - apply all_kept_add; [exact Ha | now left].
+    - destruct (pfam (fst q)) eqn:P; [apply all_kept_add; [exact Ha | left; exact P]|].
+      destruct acc as [o v]. now apply collect_out_kept. }
   apply G. intros e [].
 Qed.
 
@@ -331,12 +341,14 @@ Proof.
   intros A. now apply G.
 Qed.
 
-(* serialising a restored memo again can never lose an untracked dependency: whatever the memo
-   tables are then, nothing is expanded *)
-Theorem reserialise_loses_nothing mm mm' fuel fuel' edges :
-  lost_untracked pfam mm' fuel' (flatten pfam mm fuel edges) = false.
+(* serialising a restored memo again can not lose an untracked dependency when all its edges are
+   serialised directly: whatever the memo tables are then, nothing is expanded.  (An edge kept for
+   a dependency that had no memo is expanded by a later snapshot if the dependency has a memo
+   then; if that memo is untracked the origin becomes untracked, as for any other memo.) *)
+Theorem reserialise_loses_nothing mm' fuel' edges :
+  all_persistable edges -> lost_untracked pfam mm' fuel' edges = false.
 Proof.
-  unfold lost_untracked. now rewrite (flatten_full_persistable mm' fuel' _ (flatten_persistable mm fuel edges)).
+  intros A. unfold lost_untracked. now rewrite (flatten_full_persistable mm' fuel' _ A).
 Qed.
 
 End Persistable.
